@@ -629,9 +629,14 @@ def lmm_cap_flr_pricer(num_fwds, num_paths, K, fwd0, fwds, taus, is_cap):
         raise FinError("NumPaths > MaxPaths")
 
     df = np.zeros(num_fwds)
-    capFlrLets = np.zeros(num_fwds-1)
-    capFlrLetValues = np.zeros(num_fwds-1)
+    capFlrLets = np.zeros(num_fwds)
+    capFlrLetValues = np.zeros(num_fwds)
     numeraire = np.zeros(num_fwds)
+
+    # Set up initial term structure
+    df[0] = 1.0 / (1.0 + fwd0[0] * taus[0])
+    for ix in range(1, num_fwds):
+        df[ix] = df[ix-1] / (1.0 + fwd0[ix] * taus[ix])
 
     for i_path in range(0, num_paths):
 
